@@ -704,7 +704,7 @@ def gcc_opened(cwd, argv_incs, file_spelled):
     try:
         p = subprocess.run(cmd, cwd=cwd, capture_output=True, text=True, timeout=30)
     except (OSError, subprocess.TimeoutExpired) as ex:
-        return None, str(ex)
+        return None, "ORACLE-UNAVAILABLE " + str(ex)      # gcc did not run / did not finish: no verdict (not "cannot open")
     ms = sorted(set(w.rstrip(";") for w in p.stdout.split() if w.startswith("MARK_")))
     return ms, p.stderr[-300:]
 
@@ -928,6 +928,9 @@ def check_db(ctx, drv, case, use_gcc=True, count=True):
                 if not ms:
                     gcc_ok = False
                     report.setdefault("gcc", []).append({"entry": e, "cwd": bdir, "error": err})
+                    if (err or "").startswith("ORACLE-UNAVAILABLE"):
+                        ctx.dist["gcc-oracle-unavailable(timeout/OSError)"] += 1
+                        continue
                     if mine:
                         ctx.classify(case, f"entry {e['file']} (directory {e.get('directory')}): gcc started in {bdir} cannot open "
                                            f"the file ({(err or '').strip()[:120]}) but the analysis resolves it to {mine[0]['file']}",
@@ -1135,7 +1138,15 @@ def run(ctx, drv, scale=1.0):
                 "entry by entry (bucket independence) and the concatenation compared. Non-trivial = distinct (directory spelling, file spelling) pairs of databases with at least one "
                 "kept entry, plus distinct gcc-confirmed entries. Primitives: every string over {/ . a c} up to length "
                 "6 (quick) / 7 (thorough) against posixpath/pathlib, every string over {space a ' \" \\ tab} up to length 5/6 "
-                "against shlex.")
+                "against shlex. Stream `decoy' (buckets decoy-tree:*, decoy:*): multi-directory include trees of the C04 generator "
+                "(1-4 commands with -I/-Idir/-isystem/-D/-include, nested quote/angle/computed includes, guards, #pragma once, "
+                "optionally a symlinked include directory) salted with decoy files - sources and headers beside the entries' "
+                "sources (the sources include real headers and a header only they include), headers in the -I/-isystem "
+                "directories, headers carrying the base name of an included header in another directory, files in a directory no "
+                "command mentions and at the top of the tree; the set of files attributed per platform by load_database + "
+                "finder.find is compared with the files the reference preprocessor reads, with `gcc -M -MG`, and with the Lean "
+                "model (`reachinc`); non-trivial there = well-formed tree with decoys of at least 3 categories and at least one "
+                "header found outside its includer's directory.")
     ctx.assumptions += [
         "os.path (posixpath), pathlib.PurePosixPath.suffix, shlex.split and jsonschema are modelled / trusted libraries; "
         "their models are compared exhaustively on short strings on every run",
@@ -1145,6 +1156,9 @@ def run(ctx, drv, scale=1.0):
         "lexical `..` elimination equals the kernel's reading only when no `..` follows a symlinked or non-existent "
         "directory (recorded as F-C13-1, generated in a separate stream)",
         "file spellings never end in `/`, `.` or `..` (the property speaks of files)",
+        "decoy stream: trees on which a -include name resolves differently from the source's directory and from the working "
+        "directory (D33) or a directory is given with both -I and -isystem (F-C04-2) are skipped there (subjects of C04); "
+        "trees on which the reference preprocessor meets a missing header are skipped (C18); gcc -M is used where it is silent",
     ]
     if drv is not None:
         thorough = ctx.thorough() or ctx.budget_scale > 1
@@ -1198,6 +1212,30 @@ def run(ctx, drv, scale=1.0):
                         "implementation": rep.get("implementation")}, cap=8)
     ctx.extra["databases"] = done
     ctx.extra["shared_spelling_databases"] = done3
+    decoy_stream(ctx, drv, limit)
+
+
+def decoy_stream(ctx, drv, limit):
+    """separate stream (buckets decoy-tree:*, decoy:*): include trees of the C04 generator salted with files that no entry
+    names and nothing reached includes; load_database + finder.find against the reference preprocessor, gcc -M and the
+    Lean model of the composed analysis (op `reachinc`, theorems of Props/C13Closure.lean)"""
+    from harness.gen import decoytree as D
+    for f in sorted((core.VERIF / "corpus" / "C13").glob("decoy*.json")):
+        D.check_decoy_tree(ctx, drv, json.loads(f.read_text()), use_gcc=True)
+    n4 = ctx.n(120, 500)
+    t0 = ctx.elapsed()
+    done4 = 0
+    for i in range(n4):
+        if i >= n4 // 3 and ctx.elapsed() - t0 > (25 if not ctx.thorough() and ctx.budget_scale <= 1 else 150):
+            ctx.notes.append(f"time guard: {i} of {n4} decoy trees explored")
+            break
+        case = D.gen_case(ctx.rng, i)
+        rep = D.check_decoy_tree(ctx, drv, case, use_gcc=True)
+        done4 += 1
+        if i < 2:
+            ctx.sample({"stream": "decoy", "entries": [e["argv"] for e in case["desc"]["entries"]], "files": sorted(case["desc"]["files"]),
+                        "decoys": rep.get("decoys"), "implementation": rep.get("implementation"), "gcc_M": rep.get("gcc_M")}, cap=10)
+    ctx.extra["decoy_trees"] = done4
 
 
 def search(ctx, drv):
@@ -1209,6 +1247,12 @@ def replay(ctx, drv, case):
     if "schema_doc" in case:
         schema = json.loads((core.REPO / "codebasin" / "schema" / "compilation-database.schema").read_text())
         return check_schema(ctx, drv, case["schema_doc"], schema)
+    if case.get("stream") == "decoy":
+        from harness.gen import decoytree as D
+        rep = D.check_decoy_tree(ctx, drv, case, use_gcc=True, count=False)
+        rep["violations"] = [w for w, _ in ctx.violations]
+        rep["correspondence_breaks"] = ctx.corr_breaks[:2]
+        return rep
     if "a" in case and "tree" not in case:
         return {"model": drv.ask({"op": "dbpath", "fn": "all", "a": case["a"], "cwd": case.get("cwd", "/")}) if drv else None,
                 "posixpath.normpath": posixpath.normpath(case["a"])}
